@@ -19,8 +19,8 @@ PROPS = {
                        "infinite so a sampled, signature-stratified exploration is the strongest this family offers"),
         "level_note": "trusted: jxlgen entropy encoder (validated against the pinned decoder over millions of streams), the worker's comparison code",
         "technique": "runtime differential monitor: reference encoder -> real decoder, exact value/bit-count/final-state oracle",
-        "quick": {"cases": 400000, "floor": 100000, "time_budget": 300},
-        "thorough": {"cases": 20000000, "floor": 3000000, "time_budget": 3000},
+        "quick": {"cases": 400000, "floor": 10000, "time_budget": 300},
+        "thorough": {"cases": 20000000, "floor": 500000, "time_budget": 3000},
     },
 }
 
@@ -44,8 +44,8 @@ PROPS["C14"] = {
                    "branch bits is what a runtime monitor can do"),
     "level_note": "trusted: jxlgen header writer + comparison code in vcheck/src/c14.rs",
     "technique": "runtime differential monitor: independent header writer -> real parser, field-by-field and bit-position oracle",
-    "quick": {"cases": 300000, "floor": 100000, "time_budget": 300},
-    "thorough": {"cases": 12000000, "floor": 2000000, "time_budget": 3000},
+    "quick": {"cases": 300000, "floor": 7500, "time_budget": 300},
+    "thorough": {"cases": 12000000, "floor": 300000, "time_budget": 3000},
 }
 
 PROPS["C03"] = {
@@ -75,8 +75,8 @@ PROPS["C03"] = {
                    "of every channel compared exactly with the encoder-side truth on two decode paths and both buffer widths"),
     "level_note": "trusted: jxlgen (entropy encoder, header writer, Modular model+encoder), comparison code in vcheck/src/c03.rs",
     "technique": "runtime differential monitor: independent Modular encoder/model -> real decoder, exact per-sample oracle",
-    "quick": {"cases": 30000, "floor": 8000, "time_budget": 300},
-    "thorough": {"cases": 2500000, "floor": 300000, "time_budget": 3000},
+    "quick": {"cases": 30000, "floor": 750, "time_budget": 300},
+    "thorough": {"cases": 2500000, "floor": 62500, "time_budget": 3000},
 }
 
 PROPS["C10"] = {
@@ -97,8 +97,8 @@ PROPS["C10"] = {
                    "count and aux box contents are compared exactly with an independent reference reader"),
     "level_note": "trusted: jxlgen::container writer + reference reader (cross-checked against each other per file), comparison code in c10.rs",
     "technique": "runtime differential monitor: independent container writer + reference reader vs ContainerParser event stream under many chunkings, and vs JxlImage aux box API",
-    "quick": {"cases": 3000000, "floor": 600000, "time_budget": 240},
-    "thorough": {"cases": 100000000, "floor": 20000000, "time_budget": 2700},
+    "quick": {"cases": 3000000, "floor": 75000, "time_budget": 240},
+    "thorough": {"cases": 100000000, "floor": 2500000, "time_budget": 2700},
 }
 
 PROPS["C16"] = {
@@ -122,8 +122,33 @@ PROPS["C16"] = {
                    "thousands of dense/structured blocks and varblock tilings, on every x86 path and alignment class"),
     "level_note": "trusted: jxlgen::dctref (O(N^2)/separable f64 evaluation), comparison code in c16.rs, hook H3 wrappers (pass-through)",
     "technique": "runtime differential monitor: f64 definition model vs real generic/SSE code through hook H3",
-    "quick": {"cases": 300000, "floor": 100000, "time_budget": 300},
-    "thorough": {"cases": 8000000, "floor": 2500000, "time_budget": 3000},
+    "quick": {"cases": 300000, "floor": 7500, "time_budget": 300},
+    "thorough": {"cases": 8000000, "floor": 200000, "time_budget": 3000},
+}
+
+PROPS["C17"] = {
+    "worker": "c17", "variant": "chk", "level": "exploration",
+    "rule": ("case -> mode (55% valid, 25% partial arrival, 20% hostile jbrd). valid: jxlgen::jpeg writes a random baseline/extended/"
+             "progressive JPEG (1..4 components, sampling 1x1..4x4 mixes, random scan scripts incl. partial component scans, successive "
+             "approximation, restart intervals, 8/16-bit quant tables, multiple DHT/DQT layouts, APPn/COM/ICC/Exif/XMP, padding-bit patterns, "
+             "tail data, inter-marker bytes, extra zero runs, reset points, EOB runs); jxlgen::vardct transcodes it to a VarDCT frame + jbrd box "
+             "(stored-Brotli), ICC in the codestream, Exif/xml boxes, random container layout; oracle: reconstruct_jpeg output == original bytes, "
+             "render_frame Ok. partial arrival: build_uninit/feed_bytes/try_init with random chunking; status sampled after every chunk: never "
+             "Unavailable/Invalid for a prefix of a valid file, Available only when jbrd + needed Exif/XMP boxes are complete, reconstruct at an "
+             "Available moment = clean error or the original; files without jbrd: Unavailable after finalize, reconstruct is Err. hostile: valid "
+             "jbrd syntax with hostile values (28 kinds) -> error or garbage, never a panic. signature = (mode, components, sampling, SOF type, "
+             "scan script shape, restart use, table mode, metadata kinds, padding, tail, extras); non-trivial iff a JPEG was transcoded"),
+    "assumptions": [
+        "jxlgen::jpeg writer follows ITU T.81; while it was built its output was cross-checked against the libjpeg-turbo 62 coefficient reader installed in the image (development-time only, not part of the check)",
+        "jbrd field layout and VarDCT JPEG-transcode subset written from the format definition as recalled; three conventions (scan geometry of partial interleaved scans, padding-bit order, quant_idx meaning) differ from the decoder and are listed as known findings with the reason for judging the decoder wrong",
+        "Brotli only as stored (uncompressed) meta-blocks; JPEGs <= 600 px; no arithmetic-coded or lossless JPEG (not representable in jbrd)",
+    ],
+    "level_text": ("exploration: tens of thousands of independently written JPEGs per quick run reconstructed byte-exactly, partial arrival "
+                   "status sampled at every chunk boundary, 28 hostile jbrd kinds"),
+    "level_note": "trusted: jxlgen::jpeg / jbrd / vardct / container writers, byte comparison in c17.rs",
+    "technique": "runtime round-trip monitor: independent JPEG writer + jbrd/VarDCT transcoder vs real reconstruct_jpeg (byte-exact), status-trace monitor under partial feeding",
+    "quick": {"cases": 24000, "floor": 600, "time_budget": 300},
+    "thorough": {"cases": 400000, "floor": 10000, "time_budget": 3000},
 }
 
 PROPS["C18"] = {
@@ -144,8 +169,8 @@ PROPS["C18"] = {
                    "every inconsistent kind must be rejected"),
     "level_note": "trusted: jxlgen::icc encoder (inverse of each command, validated against the pinned decoder), jxlgen entropy encoder",
     "technique": "runtime differential monitor: reference ICC encoder -> real decoder, exact byte/bit oracle; inconsistent encodings must be Err",
-    "quick": {"cases": 800000, "floor": 200000, "time_budget": 300},
-    "thorough": {"cases": 25000000, "floor": 5000000, "time_budget": 3000},
+    "quick": {"cases": 800000, "floor": 20000, "time_budget": 300},
+    "thorough": {"cases": 25000000, "floor": 625000, "time_budget": 3000},
 }
 
 _C19_EXTRA = {"allow": "all", "report-known": "1"}
@@ -167,8 +192,8 @@ PROPS["C19"] = {
     "level_text": ("exploration: tens of millions of encodings / transfer-function ramps per quick run against an independent f64 model"),
     "level_note": "trusted: f64 model and comparison code in c19.rs",
     "technique": "runtime monitor: real synthesiser/parser/transforms vs independent f64 model and definitions",
-    "quick": {"cases": 30000000, "floor": 6000000, "time_budget": 300, "extra": _C19_EXTRA},
-    "thorough": {"cases": 900000000, "floor": 150000000, "time_budget": 3000, "extra": _C19_EXTRA},
+    "quick": {"cases": 30000000, "floor": 750000, "time_budget": 300, "extra": _C19_EXTRA},
+    "thorough": {"cases": 900000000, "floor": 22500000, "time_budget": 3000, "extra": _C19_EXTRA},
 }
 
 PROPS["C12"] = {
@@ -190,8 +215,8 @@ PROPS["C12"] = {
                    "compared value for value, plus comparison with the independent encoder truth"),
     "level_note": "trusted: jxlgen Modular encoder/model (range tracking), comparison code in c12.rs",
     "technique": "runtime differential monitor: same stream through narrow(SIMD) and wide(scalar) decode paths + reference truth",
-    "quick": {"cases": 6000, "floor": 1000, "time_budget": 240},
-    "thorough": {"cases": 400000, "floor": 80000, "time_budget": 3000},
+    "quick": {"cases": 6000, "floor": 150, "time_budget": 240},
+    "thorough": {"cases": 400000, "floor": 10000, "time_budget": 3000},
 }
 
 PROPS["C05"] = {
@@ -214,8 +239,8 @@ PROPS["C05"] = {
     "level_text": "exploration: thousands of random frame sequences per run compared sample by sample with an independent compositor",
     "level_note": "trusted: jxlgen::anim compositor + Modular encoder, comparison code in c05.rs",
     "technique": "runtime differential monitor: independent f64 compositor vs real renderer on generated multi-frame streams",
-    "quick": {"cases": 12000, "floor": 3000, "time_budget": 240},
-    "thorough": {"cases": 600000, "floor": 100000, "time_budget": 3000},
+    "quick": {"cases": 12000, "floor": 300, "time_budget": 240},
+    "thorough": {"cases": 600000, "floor": 15000, "time_budget": 3000},
 }
 
 PROPS["C08"] = {
@@ -240,8 +265,8 @@ PROPS["C08"] = {
                    "for images with <= 60/400 points), with follow-up call sequences and recovery; wedges are decided logically from hook events"),
     "level_note": "trusted: hooks H1/H2 (add-only, pass-through), monitor.rs orphan logic, generators",
     "technique": "fault injection at every tracked allocation + protocol-event monitor (logical wedge detection) + differential re-render",
-    "quick": {"cases": 700, "floor": 100, "time_budget": 240},
-    "thorough": {"cases": 30000, "floor": 4000, "time_budget": 3000},
+    "quick": {"cases": 700, "floor": 20, "time_budget": 240},
+    "thorough": {"cases": 30000, "floor": 750, "time_budget": 3000},
 }
 
 PROPS["C13"] = {
@@ -260,8 +285,8 @@ PROPS["C13"] = {
     "level_text": "exploration: thousands of (image chain, limit, script) triples per run with an online accounting monitor",
     "level_note": "trusted: hook H1 shadow counters (updated in the same call as the budget), c13.rs",
     "technique": "online invariant monitor on hooked allocator state + quiescence checks through the public API",
-    "quick": {"cases": 5000, "floor": 800, "time_budget": 240},
-    "thorough": {"cases": 300000, "floor": 50000, "time_budget": 3000},
+    "quick": {"cases": 5000, "floor": 125, "time_budget": 240},
+    "thorough": {"cases": 300000, "floor": 7500, "time_budget": 3000},
 }
 
 PROPS["C20"] = {
@@ -285,8 +310,8 @@ PROPS["C20"] = {
                    "quick run with logical deadlock detection, overlap detection and differential result check"),
     "level_note": "trusted: hook H2 event placement (add-only), the scheduler in c20.rs",
     "technique": "controlled-schedule concurrency testing of the real code (hook-driven baton scheduler, random + PCT strategies) with online protocol monitors",
-    "quick": {"cases": 500, "floor": 60, "time_budget": 240},
-    "thorough": {"cases": 20000, "floor": 2500, "time_budget": 3000},
+    "quick": {"cases": 500, "floor": 20, "time_budget": 240},
+    "thorough": {"cases": 20000, "floor": 500, "time_budget": 3000},
 }
 
 PROPS["C15"] = {
@@ -307,8 +332,8 @@ PROPS["C15"] = {
     "level_text": "exploration: tens of thousands of (image, orientation, region, output type) combinations per run, per-sample oracle against an independent model",
     "level_note": "trusted: jxlgen encoder + EXIF-derived orientation model in c15.rs",
     "technique": "runtime differential monitor: independent encoder + EXIF-derived orientation model -> real decoder outputs, per-sample oracle",
-    "quick": {"cases": 40000, "floor": 6000, "time_budget": 240},
-    "thorough": {"cases": 700000, "floor": 120000, "time_budget": 3000},
+    "quick": {"cases": 40000, "floor": 1000, "time_budget": 240},
+    "thorough": {"cases": 700000, "floor": 17500, "time_budget": 3000},
 }
 
 PROPS["C07"] = {
@@ -327,8 +352,74 @@ PROPS["C07"] = {
     "level_text": "exploration: each workload under 10..20 thread / schedule configurations, bit-exact differential oracle",
     "level_note": "trusted: hook H4 permutation (add-only), comparison code in c07.rs",
     "technique": "runtime differential monitor across thread-pool sizes, permuted job orders and concurrent callers; bit-exact comparison",
-    "quick": {"cases": 500, "floor": 80, "time_budget": 240},
-    "thorough": {"cases": 20000, "floor": 3000, "time_budget": 3000},
+    "quick": {"cases": 320, "floor": 20, "time_budget": 240},
+    "thorough": {"cases": 20000, "floor": 500, "time_budget": 3000},
+}
+
+PROPS["C01"] = {
+    "worker": "c01", "variant": "chk", "level": "exploration",
+    "rule": ("case = hostile input x random call script. Inputs: byte-mutated valid streams (Modular single-frame, multi-frame, "
+             "container-wrapped; bit flips, byte sets, truncation, insertion, deletion, splicing), the repository's 60 fuzz regressions and "
+             "the real fixture (raw and mutated), valid-syntax image/frame headers with arbitrary huge values + junk sections, valid-syntax "
+             "Modular streams with adversarial values (31-bit depths, full-i32 sample ranges, palettes with 0 colours / deltas / implicit "
+             "entries, stacked squeezes, extreme tree multipliers/offsets/split values, lying 16-bit flag), Modular streams with unvalidated "
+             "transform lists (num_c 8192, begin_c huge, rct_type > 41 ...) and trees followed by junk, ill-formed containers. Script: "
+             "whole-buffer read or build_uninit/feed_bytes/try_init with 1 / <=64 / <=4096-byte chunks re-offering unconsumed bytes, then "
+             "3..14 random calls among render_frame (+ image_all_channels / image_planar / stream u8 / stream_no_alpha u16 / chunked f32), "
+             "render_loading_frame, set_image_region (valid and wild), request_color_encoding, request_icc (valid/mutated/random), "
+             "rendered_icc/cicp/pixel_format/hdr_type/original_icc, frame/frame_header/frame_offset/frame_by_keyframe, aux boxes, "
+             "jpeg_reconstruction_status + reconstruct_jpeg, spot colour toggle, feed_bytes(empty), finalize; allocation limit 128 MiB, "
+             "images larger than 4096 px are parsed and queried but not rendered. chk build: arithmetic overflow and debug assertions "
+             "panic. Oracle: every call returns; a panic located in the decoder, a process death or a confirmed hang (per-case watchdog, "
+             "re-run alone with a 10x budget) is a violation keyed by (kind, file:line). signature = (input class, outcome, first error "
+             "class); non-trivial iff the image initialised and has >= 1 frame"),
+    "assumptions": [
+        "generated VarDCT / jbrd streams are not yet part of the hostile corpus (only via the fuzz regressions and the fixture)",
+        "panics inside std/dependencies raised on behalf of decoder code are attributed to the decoder",
+        "hang = case exceeding 90 s and again 900 s when re-run alone; anything in between is recorded as slow",
+    ],
+    "level_text": ("exploration: tens of thousands of (hostile input, API script) pairs per quick run in a checked build; inputs concentrate "
+                   "on valid-syntax hostile values and on the API surface upstream fuzzing never drives"),
+    "level_note": "trusted: worker panic attribution (location under /repo), supervisor crash attribution by progress file",
+    "technique": "runtime monitoring under hostile workloads: panic/abort/hang monitors on a checked build (overflow + debug assertions)",
+    "quick": {"cases": 60000, "floor": 1500, "time_budget": 240},
+    "thorough": {"cases": 3000000, "floor": 60000, "time_budget": 3000},
+}
+
+_C02_RULE = ("stages: (1) ASan build (nightly -Zsanitizer=address, release, wrapping arithmetic): the C01 hostile workload with a share of "
+             "valid streams through read/feed/render/region/output scripts; the C12 shape sweep (widths and heights 1..70, 120..136, 250..262 "
+             "around SIMD lane and group boundaries, forced squeeze/RCT, narrow and wide buffers, pool none/rayon) and the C03 valid corpus "
+             "(all transforms, multi-group); thorough adds (2) valgrind memcheck on the plain release build for uninitialised reads in the "
+             "MaybeUninit squeeze scratch / SIMD tails, (3) Miri on tiny images with default target features (scalar paths) and with "
+             "+sse4.1 / +avx2 (both SIMD kernel families incl. the one this CPU never selects; aliasing of the raw-pointer subgrids), and "
+             "(4) a ThreadSanitizer build (-Zbuild-std) over the C07 thread-configuration workload. Oracle: any sanitizer / Miri / memcheck "
+             "report or process death = violation keyed by (report kind, first in-repo frame). Panics are C01's business and only counted. "
+             "signature = per stage worker's own signature")
+PROPS["C02"] = {
+    "level": "exploration",
+    "rule": _C02_RULE,
+    "assumptions": [
+        "ASan misses intra-object and far out-of-bounds accesses; Miri covers those only on its tiny cases; uninitialised reads are only seen by memcheck/Miri (thorough tier)",
+        "kernel families: this CPU selects AVX2/SSE4.1 natively; Miri selects them from static target features",
+        "generated VarDCT streams are not yet part of the corpus (EPF/Gabor/DCT kernels are reached only through the real fixture and the fuzz regressions)",
+    ],
+    "level_text": ("exploration under memory-error detectors: the hostile and valid-shape workloads of C01/C12/C03 are replayed under ASan "
+                   "(quick) plus memcheck, Miri (three target-feature sets) and TSan (thorough)"),
+    "level_note": "trusted: the sanitizers; supervisor attribution of reports to cases via progress files",
+    "technique": "compiler sanitizers (ASan, TSan), valgrind memcheck and Miri over generated hostile + boundary-shape workloads",
+    "stages": [
+        {"worker": "c02", "variant": "asan", "quick": {"cases": 12000, "floor": 300, "time_budget": 200, "extra": {"ignore-panics": 1}},
+         "thorough": {"cases": 600000, "floor": 10000, "time_budget": 1500, "extra": {"ignore-panics": 1}}},
+        {"worker": "c12", "variant": "asan", "quick": {"cases": 1500, "floor": 40, "time_budget": 120, "extra": {"ignore-panics": 1}},
+         "thorough": {"cases": 40000, "floor": 1000, "time_budget": 900, "extra": {"ignore-panics": 1}}},
+        {"worker": "c03", "variant": "asan", "quick": {"cases": 3000, "floor": 80, "time_budget": 120, "extra": {"ignore-panics": 1}},
+         "thorough": {"cases": 80000, "floor": 2000, "time_budget": 900, "extra": {"ignore-panics": 1}}},
+        {"worker": "c12", "variant": "vg", "thorough": {"cases": 1200, "floor": 30, "time_budget": 900, "shards": 16, "hang_budget": 900, "extra": {"ignore-panics": 1}}},
+        {"worker": "c03", "variant": "miri", "thorough": {"cases": 160, "floor": 4, "time_budget": 1200, "shards": 16, "hang_budget": 1200, "extra": {"ignore-panics": 1, "tiny": 1}}},
+        {"worker": "c12", "variant": "miri+sse4.1", "thorough": {"cases": 96, "floor": 2, "time_budget": 1200, "shards": 16, "hang_budget": 1200, "extra": {"ignore-panics": 1, "tiny": 1}}},
+        {"worker": "c12", "variant": "miri+avx2", "thorough": {"cases": 96, "floor": 2, "time_budget": 1200, "shards": 16, "hang_budget": 1200, "extra": {"ignore-panics": 1, "tiny": 1}}},
+        {"worker": "c07", "variant": "tsan", "thorough": {"cases": 600, "floor": 10, "time_budget": 1200, "hang_budget": 600, "extra": {"ignore-panics": 1}}},
+    ],
 }
 
 ALL = ["C%02d" % i for i in range(1, 21)]
